@@ -37,6 +37,7 @@ BUDGET = {"quick": 400, "thorough": 4000}
 ASSUMPTIONS = [
     "why CP-SAT stopped is not observable; 'only when a time limit prevented it' is decided as: never an exception without a limit",
     "CP-SAT is multi-threaded: schedules are compared by validity and objective value, never by identity",
+    "beyond 2**52 only feasibility, completeness and metadata makespan == schedule makespan are asserted: OR-tools holds bounds and gap limits as doubles and reports an off-by-one schedule as optimal there (observed on the unchanged tree; a limit of the external solver, not of job_shop_lib)",
 ]
 
 
@@ -131,7 +132,14 @@ def check_result(ctx, inst, instance, sched, where, opt=None):
     ctx.check(mk >= max(job_lb, mach_lb), "below-lower-bound", f"{where}: makespan {mk} < lower bound {max(job_lb, mach_lb)}")
     if opt is not None:
         ctx.check(mk >= opt, "below-optimum", f"{where}: makespan {mk} below the exact optimum {opt}")
-        if meta.get("status") == "optimal":
+        # CP-SAT decides optimality through bounds and gap limits held as
+        # doubles: beyond 2**53 an off-by-one schedule is reported "optimal"
+        # by OR-tools itself (seen on the unchanged tree), so the claim of
+        # optimality is only asserted below that
+        exact_range = opt < 2**52
+        if not exact_range:
+            ctx.count("optimality_not_asserted_beyond_2**52")
+        if meta.get("status") == "optimal" and exact_range:
             ctx.check(
                 mk == opt,
                 "not-optimal",
@@ -228,7 +236,7 @@ def check_case(case, ctx):
         if kind in ("large", "bench", "small"):
             for rule in ("most_work_remaining", "shortest_processing_time", "first_come_first_served", "most_operations_remaining"):
                 rs = DispatchingRuleSolver(rule).solve(build_instance(inst))
-                if status == "optimal":
+                if status == "optimal" and mk < 2**52:
                     ctx.check(
                         mk <= rs.makespan(),
                         "worse-than-rule",
